@@ -254,6 +254,13 @@ class Component( ComponentLevel7 ):
     for func, obj_name in provided_func_calls:
       parent._dsl.func_calls[func].add( eval(obj_name) )
 
+    # Evaluating the saved names may spawn slices/fields of the new
+    # component's signals (e.g. parent connects obj.out[0:4]). They also
+    # need to be registered at top.
+    spawned_signals = obj._collect_all_single( lambda x: isinstance( x, Signal ) ) - added_signals
+    top._dsl.all_signals       |= spawned_signals
+    top._dsl.all_named_objects |= spawned_signals
+
     del NamedObject._elaborate_stack
 
   def _delete_component( top, obj ):
